@@ -10,7 +10,7 @@ Next == l <= Len(In) /\ l' = l + 1
 CorOf(v, ts, kind, r) ==
   IF kind = "none" THEN <<"none", 0>>
   ELSE LET cand == IF kind = "trail" THEN {<<"trail", k>> : k \in 1..Len(Trailers)}
-                   ELSE {cor \in {kind} \X (1..Len(ts)) : Applicable(v, ts, cor)}
+                   ELSE {cor \in {kind} \X (1..(Len(ts) + 1)) : Applicable(v, ts, cor)}
            sq == SetToSortSeq(cand, LAMBDA a, b : a[2] < b[2])
        IN IF cand = {} THEN <<"none", 0>> ELSE sq[(r % Len(sq)) + 1]
 Export ==
